@@ -22,6 +22,10 @@ SPEC = Spec(
         Harness(name="e2e", module="exporter", pkg="exporter/exporterhelper/internal",
                 files={"zz_verif_c01_e2e_test.go": "c01/e2e_test.go"},
                 test="TestVerifC01E2E", driver=None, n={"quick": 60, "thorough": 600}, timeout_s=600),
+        # property C01 on REAL exporters (all four signals, generated option sets) over a storage that survives death
+        Harness(name="exporter", module="exporter/exporterhelper/xexporterhelper", pkg="exporter/exporterhelper/xexporterhelper",
+                files={"zz_verif_c01_exporter_test.go": "c01/exporter_test.go"},
+                test="TestVerifC01Exporter", driver="drv_c01", n={"quick": 160, "thorough": 2400}, timeout_s=900),
     ],
     rule="pq: the REAL persistentQueue[uint64] (Start/Offer/Read/OnDone/Shutdown) on a map-backed storage.Client that can kill "
          "the incarnation right after its k-th call (panic unwinds the operation; a new queue object is started on the same map). "
